@@ -205,6 +205,68 @@ func TestC11(t *testing.T) {
 			c.Case(false, "", "wrong-length")
 		}
 	})
+	// Histories over reused buffers: the same scalar/point/dst arrays are overwritten in place
+	// between calls (key rotation into a fixed buffer, the RFC 7748 iteration pattern), mixing the
+	// three entry points.  Every call must still equal the reference for the bytes supplied.
+	rapid.Check(t, func(rt *rapid.T) {
+		var sbuf [2][32]byte
+		var pbuf, dst [32]byte
+		sslice := [2][]byte{make([]byte, 32), make([]byte, 32)}
+		steps := rapid.IntRange(2, 8).Draw(rt, "steps")
+		shape := ""
+		for i := 0; i < steps; i++ {
+			which := rapid.IntRange(0, 1).Draw(rt, "buf")
+			if rapid.IntRange(0, 3).Draw(rt, "rewrite") != 0 {
+				sc, _ := c11ScalarClass(rt)
+				copy(sbuf[which][:], sc)
+				copy(sslice[which], sc)
+			}
+			if rapid.IntRange(0, 2).Draw(rt, "newpoint") != 0 {
+				u, _ := c11UClass(rt)
+				copy(pbuf[:], u)
+			}
+			op := rapid.SampledFrom([]string{"X25519", "ScalarMult", "ScalarBaseMult", "iterate"}).Draw(rt, "op")
+			shape += op[:2] + fmt.Sprint(which)
+			switch op {
+			case "X25519":
+				if err := c11Check(sslice[which], pbuf[:]); err != nil {
+					rt.Fatalf("VF-VIOLATION: property=C11 reused-buffer history step %d: %v", i, err)
+				}
+			case "ScalarMult":
+				want := ref.X25519(sbuf[which][:], pbuf[:])
+				curve25519.ScalarMult(&dst, &sbuf[which], &pbuf)
+				if !bytes.Equal(dst[:], want) {
+					rt.Fatalf("VF-VIOLATION: property=C11 reused-buffer history step %d: ScalarMult(%x,%x) wrote %x, want %x", i, sbuf[which], pbuf, dst, want)
+				}
+			case "ScalarBaseMult":
+				want := ref.X25519(sbuf[which][:], curve25519.Basepoint)
+				curve25519.ScalarBaseMult(&dst, &sbuf[which])
+				if !bytes.Equal(dst[:], want) {
+					rt.Fatalf("VF-VIOLATION: property=C11 reused-buffer history step %d: ScalarBaseMult(%x) = %x, want %x", i, sbuf[which], dst, want)
+				}
+			case "iterate":
+				// RFC 7748 section 5.2 iteration: k, u = X25519(k, u), k — in place, same slices
+				k, u := sslice[which], pbuf[:]
+				for j := 0; j < 3; j++ {
+					want := ref.X25519(k, u)
+					got, err := curve25519.X25519(k, u)
+					if isZero(want) {
+						if err == nil {
+							rt.Fatalf("VF-VIOLATION: property=C11 iterate: all-zero result without error")
+						}
+						break
+					}
+					if err != nil || !bytes.Equal(got, want) {
+						rt.Fatalf("VF-VIOLATION: property=C11 reused-buffer iteration %d: X25519(%x,%x) = %x/%v, want %x", j, k, u, got, err, want)
+					}
+					copy(u, k)
+					copy(k, got)
+				}
+				copy(sbuf[which][:], k)
+			}
+		}
+		c.Case(true, "history|"+shape, "history:reused-buffers")
+	})
 	// full table: every low-order encoding (and its alias / top-bit form) × fixed scalars
 	n := 0
 	scalars := [][]byte{make([]byte, 32), bytes.Repeat([]byte{0xff}, 32), unhex("a546e36bf0527c9d3b16154b82465edd62144c0ac1fc5a18506a2244ba449ac4"), unhex("0100000000000000000000000000000000000000000000000000000000000000")}
